@@ -680,6 +680,90 @@ def part_e2e(ck, m, tier):
     ck.count("e2e_incremental_payload_streams", len(cases))
 
 
+def part_e2e_boundary(ck, m):
+    """End to end at the capacity boundary of the stream item queue (early execution): a streamed list of
+    cap-1 / cap / cap+1 item awaitables; all but the LAST item settle before the client starts pulling, so the
+    finished producer may be parked on its end marker while the last item is held back; a slow deferred fragment
+    keeps the response open.  The payload stream must obey the protocol (validators of part B)."""
+    import inspect
+    from graphql import build_schema, parse
+    from graphql.execution import ExecutionResult, experimental_execute_incrementally
+    try:
+        from graphql.execution.incremental.stream_item_queue import StreamItemQueue
+        cap = inspect.signature(StreamItemQueue.__init__).parameters["capacity"].default
+        cap = cap if isinstance(cap, int) and 0 < cap <= 2000 else 100
+    except Exception:  # noqa: BLE001
+        cap = 100
+    schema = build_schema(SDL)
+    doc = parse("{ nums @stream(initialCount: 0, label: \"S\") ... @defer(label: \"A\") { slow } }")
+    cases, metas = [], []
+    for n in (cap - 1, cap, cap + 1):
+        for late in (n - 1, 0):
+            def scenario(n=n, late=late):
+                async def main():
+                    loop = asyncio.get_running_loop()
+                    futs = [loop.create_future() for _ in range(n)]
+                    slow = loop.create_future()
+                    res = experimental_execute_incrementally(schema, doc, {"nums": futs, "slow": slow},
+                                                             enable_early_execution=True)
+                    if hasattr(res, "__await__"):
+                        res = await res
+                    if isinstance(res, ExecutionResult):
+                        return [res.formatted], None
+                    payloads = [res.initial_result.formatted]
+                    for i, f in enumerate(futs):
+                        if i != late:
+                            f.set_result(i)
+                    await settle(quiet=10)
+                    state = {"err": None}
+
+                    async def consume():
+                        try:
+                            async for p in res.subsequent_results:
+                                payloads.append(p.formatted)
+                        except Exception as e:  # noqa: BLE001
+                            state["err"] = f"{type(e).__name__}: {e}"
+                    t = asyncio.ensure_future(consume())
+                    await settle(lambda: len(payloads), quiet=10)
+                    futs[late].set_result(late)
+                    await settle(lambda: len(payloads), quiet=10)
+                    slow.set_result(9)
+                    try:
+                        await asyncio.wait_for(t, 10)
+                    except asyncio.TimeoutError:
+                        state["err"] = "payload stream did not finish"
+                    return payloads, state["err"]
+                return main()
+            try:
+                (payloads, err), _ = fresh_loop_run(scenario)
+            except Exception as e:  # noqa: BLE001
+                ck.count("e2e_boundary_harness_errors")
+                continue
+            key = f"e2e-boundary:items={n - cap:+d} relative to the queue capacity:late={'last' if late else 'first'}"
+            rep = {"relation": "payload stream satisfies the delivery protocol", "query": "{ nums @stream(initialCount: 0) ... @defer { slow } }",
+                   "items": n, "queue_capacity": cap, "late_item": late, "early_execution": True}
+            ck.note_case(("e2e-boundary", n, late), nontrivial=len(payloads) > 1)
+            ck.count("e2e_boundary_runs")
+            if err:
+                ck.violation(key + ":error", f"{err} ({n} streamed items, item {late} settles late)", dict(rep, payloads=payloads[-3:]))
+                continue
+            labels, keys = Interner(), Interner()
+            ab, problems, data = abstract_real(payloads, labels, keys)
+            okp, okc, why = py_valid_abs([], ab)
+            if problems:
+                ck.violation(key + ":data", f"{problems[0]} ({n} streamed items, item {late} settles late)", dict(rep, payloads=payloads[-3:]))
+            if not okc:
+                ck.violation(key + ":protocol", f"protocol violated: {why} ({n} streamed items = queue capacity {n - cap:+d}, "
+                             f"item {late} settles after the client started pulling)", dict(rep, payloads=payloads[-3:]))
+            elif isinstance(data, dict) and data.get("nums") != list(range(n)):
+                ck.violation(key + ":items", f"streamed items do not reassemble to the list in order ({n} items)", dict(rep))
+            cases.append(enc_validator_case([], ab))
+            metas.append((key, rep, okc))
+    for (key, rep, okc), out in zip(metas, m.run_batch(cases)):
+        if (out[:3] == [1, 1, 1]) != bool(okc):
+            ck.violation("validators-disagree:" + key, f"extracted valid = {out[1:3]} but the Python validator says {okc}", rep)
+
+
 # =========================================================================== (A) WorkQueue direct
 
 
@@ -1371,9 +1455,10 @@ def dec_wq_event(out, i):
 # =========================================================================== (C) StreamItemQueue
 
 
-def drive_siq(ops, SIQ):
+def drive_siq(ops, SIQ, capacity=100):
     """Drive the real StreamItemQueue: ops = ('push', entry) | ('settle', k, ok) | ('pull',).
-    entry = ('val', v) | ('fut', k) | ('end',) | ('err',).  Returns the list of outputs."""
+    entry = ('val', v) | ('fut', k) | ('end',) | ('err',).  Returns (outputs, is_stopped() after every op).
+    `capacity` is the constructor argument of the queue (the executor uses the default, 100)."""
     async def main():
         loop = asyncio.get_running_loop()
         cmds = asyncio.Queue()
@@ -1392,7 +1477,8 @@ def drive_siq(ops, SIQ):
                 else:
                     await queue.push(futs[e[1]])
 
-        q = SIQ(produce, None, eager=False, capacity=100)
+        q = SIQ(produce, None, eager=False, capacity=capacity)
+        flags = []
         it = q.batches()
         pulling = {"task": None}
         closed = {"v": False}
@@ -1436,6 +1522,7 @@ def drive_siq(ops, SIQ):
             for _ in range(12):
                 await asyncio.sleep(0)
             harvest()
+            flags.append(bool(q.is_stopped()))
         # cleanup
         if pulling["task"] is not None:
             pulling["task"].cancel()
@@ -1452,14 +1539,14 @@ def drive_siq(ops, SIQ):
                 f.cancel()
         for _ in range(10):
             await asyncio.sleep(0)
-        return outs
+        return outs, flags
 
     res, _ = fresh_loop_run(main)
     return res
 
 
-def enc_siq_ops(ops):
-    out = [4, len(ops)]
+def enc_siq_ops(ops, capacity=100):
+    out = [4, capacity, len(ops)]
     for op in ops:
         if op[0] == "push":
             e = op[1]
@@ -1497,7 +1584,9 @@ def dec_siq_out(out):
         else:
             res.append(("raised",))
             i += 1
-    return res
+    nf = out[i]
+    flags = [(bool(out[i + 1 + 2 * j]), out[i + 2 + 2 * j]) for j in range(nf)]
+    return res, flags
 
 
 def valid_siq_script(ops):
@@ -1537,10 +1626,12 @@ def part_siq(ck, m, tier):
     elif len(scripts) > 25000:
         ck.rng.shuffle(scripts)
         scripts = scripts[:25000]
-    # number the pushed values so that order and uniqueness are observable
+    # number the pushed values so that order and uniqueness are observable; every script runs with a small
+    # capacity of the entries queue (back-pressure: the producer - also its final end / failure marker - is parked
+    # on the full queue while entries are held or pending), a part of them also with the executor's default
     cases = []
     numbered = []
-    for s in scripts:
+    for j, s in enumerate(scripts):
         k = 0
         t = []
         for op in s:
@@ -1549,29 +1640,49 @@ def part_siq(ck, m, tier):
                 t.append(("push", ("val", 100 + k)))
             else:
                 t.append(op)
-        numbered.append(t)
-        cases.append(enc_siq_ops(t))
+        npush = sum(1 for op in t if op[0] == "push")
+        caps = [1, 2] if npush >= 2 else [1]
+        if j % 3 == 0 or npush < 2:
+            caps.append(100)
+        for cap in caps:
+            numbered.append((t, cap))
+            cases.append(enc_siq_ops(t, cap))
     outs = m.run_batch(cases)
-    for s, out in zip(numbered, outs):
-        mo = dec_siq_out(out)
+    for (s, cap), out in zip(numbered, outs):
+        dec = dec_siq_out(out)
+        if dec is None:
+            ck.count("siq_decode_errors")
+            continue
+        mo, mflags = dec
         try:
-            io = drive_siq(s, SIQ)
+            io, iflags = drive_siq(s, SIQ, cap)
         except Exception as e:  # noqa: BLE001
             ck.count("siq_harness_errors")
             continue
         ion = [(o[0], [("val", x[1]) if x[0] == "val" else ("futval", x[1]) for x in o[1]]) if o[0] == "batch" else o for o in io]
-        key = "siq:" + json.dumps(s)
+        key = f"siq:cap{cap}:" + json.dumps(s)
         ck.note_case(key, nontrivial=any(o[0] == "batch" for o in ion))
         ck.count("siq_scripts")
+        ck.count(f"siq_capacity_{cap}")
         if ("cancelled",) in ion:
             ck.violation("siq-source-failure-cancels-pending-item",
                          "StreamItemQueue: the source failed while an earlier item future was pending; the consumer of batches() "
                          f"got CancelledError instead of the items followed by the failure (ops {s})",
                          {"relation": "batches() = queue model", "ops": s, "impl": ion, "model": mo})
         elif ion != mo:
-            ck.violation(key, f"StreamItemQueue.batches() outputs differ from the model: impl {ion} model {mo}",
-                         {"relation": "batches() = queue model", "ops": s, "impl": ion, "model": mo})
+            ck.violation(key, f"StreamItemQueue.batches() (capacity {cap}) outputs differ from the model: impl {ion} model {mo}",
+                         {"relation": "batches() = queue model", "ops": s, "capacity": cap, "impl": ion, "model": mo})
+        elif any(a and mf[1] > 0 for a, mf in zip(iflags, mflags)):
+            d = next(i for i, (a, mf) in enumerate(zip(iflags, mflags)) if a and mf[1] > 0)
+            ck.violation("siq-stopped-with-outstanding-items:" + key,
+                         f"StreamItemQueue.is_stopped() (capacity {cap}) is True after operation {d} of {s} although "
+                         f"{mflags[d][1]} pushed item(s) have not been delivered yet (held back for the next batch, queued, or "
+                         "not yet put by the parked producer): the stream would be completed before its last items",
+                         {"relation": "is_stopped() implies that no pushed item is outstanding", "ops": s, "capacity": cap,
+                          "impl_flags": iflags, "model_flags": mflags, "impl": ion})
         else:
+            if iflags != [mf[0] for mf in mflags]:
+                ck.count("siq_completion_timing_differs_from_model")   # allowed: when the end becomes known is not fixed
             # direct order law: delivered values = pushed value entries in push order, each once
             pushed = [("val", op[1][1]) if op[1][0] == "val" else ("futval", op[1][1]) for op in s
                       if op[0] == "push" and op[1][0] in ("val", "fut")]
@@ -1688,6 +1799,7 @@ def run(tier):
         part_wq(ck, m, tier)
     if "e2e" in parts:
         part_e2e(ck, m, tier)
+        part_e2e_boundary(ck, m)
     if "siq" in parts:
         part_siq(ck, m, tier)
     if "explore" in parts:
